@@ -17,6 +17,7 @@ void vrt_trace_close(void);
 void vrt_emit(const char *stream, const void *obj, const char *ev, int nargs, const long long *args);
 void vrt_note(const char *fmt, ...); /* free-form "#" comment line in the trace */
 int  vrt_tid(void);
+void vrt_set_tid(int t); /* harness threads may choose a small stable id (e.g. worker index) */
 
 /* ---- schedule perturbation (effective only when the sync wrappers are linked) ---- */
 void vrt_perturb(uint32_t seed, int permille, int max_usleep); /* permille=0 disables */
